@@ -6,13 +6,13 @@ import (
 	"fmt"
 	"os"
 	"runtime"
-	"unsafe"
 	"sort"
 	"strconv"
 	"strings"
 	"sync"
 	"sync/atomic"
 	"time"
+	"unsafe"
 
 	"github.com/mit-pdos/go-nfsd/fh"
 	"github.com/mit-pdos/go-nfsd/fstxn"
@@ -102,7 +102,8 @@ func concObserver(kind string, op *fstxn.FsTxn, arg uint64) {
 }
 
 // lockTrace renders the events of one operation, transaction by transaction:
-//   T a3 a7 c r3 r7 | T a5 r5 x        (a=acquired r=released c=commit ok f=commit refused x=abort)
+//
+//	T a3 a7 c r3 r7 | T a5 r5 x        (a=acquired r=released c=commit ok f=commit refused x=abort)
 func lockTrace(evs []evRec) string {
 	var order []uintptr
 	per := map[uintptr]*strings.Builder{}
